@@ -2,12 +2,41 @@
 
 Execution-graph correspondence (real ExecutionGraph driven by the scripted
 scheduler vs Model/Exec.lean, state compared after every operation) and the
-C03 monitor of harness/execsim.py evaluated on the real traces."""
+C03 monitor of harness/execsim.py evaluated on the real traces; then whole
+commands: generated (mostly parameterised) studies run through the real
+Conductor, `maestro run -fg -t N` and `maestro run -t N` + `conductor`, with the
+scripted scheduler counting the jobs that are live at once - the throttle the
+user asked for is the one that must hold, however many instances the study
+expands to."""
+import os
+import shutil
+
+import condsim
 import execprop
+from corr import Case, compare, judge, account
 
 LEVEL = "proof"
-RULE = execprop.RULE
+RULE = (execprop.RULE + "; plus conductor-level runs of generated studies (0-4 parameters, 1-6 steps, "
+        "throttle in {0,1,2,3}) entered through Conductor / `maestro run -fg` / `maestro run`+`conductor`")
 
 
 def run(ctx, escalated=False):
-    execprop.run(ctx, "C03", escalated)
+    quick = ctx.tier == "quick" and not escalated
+    cases = execprop.run(ctx, "C03", escalated, finish=False)
+    extra = []
+    for k in range(120 if quick else 3000):
+        r = condsim.run(ctx, ctx.rng, k, entry=("direct", "fg", "bg")[k % 3])
+        if r is None:
+            continue
+        extra.append(Case({"kind": "conductor", "spec": r["spec"], "polls": r["polls"], "returned": r["ret"],
+                           "entry": r["entry"], "options": r["options"]}, [], [], r["mon"]["C03"][:3],
+                          r["options"]["throttle"] > 0))
+        ctx.count("conductor-throttle:%d" % r["options"]["throttle"])
+        if k % 30 == 29:
+            shutil.rmtree(os.path.join(ctx.scratch, "cond"), ignore_errors=True)
+    import scripted as S
+    S.install()
+    cases = cases + extra
+    diffs = compare([c for c in cases if c.lines])
+    account(ctx, extra)
+    judge(ctx, cases, diffs, "execution-graph+conductor", shrink=execprop.shrink_factory(ctx, "C03"))
